@@ -175,9 +175,18 @@ def stepLine (ds : Option DState) (line : String) : Option DState × String :=
     let n := match nat? rest "sites" with
       | some k => if k < 1 then 1 else if k > 2 then 2 else k
       | none => 1
+    -- `fixed=a,b`: switches of `Defects.asImplemented` turned off (to replay against a repaired tree)
+    let fixed := ((kv? rest "fixed").getD "").splitOn ","
+    let dEv : Defects :=
+      { refdelUnmarked := Defects.asImplemented.refdelUnmarked && !fixed.contains "refdel",
+        streamCloseEarly := Defects.asImplemented.streamCloseEarly && !fixed.contains "stream" }
+    let dFts : Fts.Defects :=
+      { deleteLeavesIndex := Fts.Defects.asImplemented.deleteLeavesIndex && !fixed.contains "delete",
+        ingestUnindexed := Fts.Defects.asImplemented.ingestUnindexed && !fixed.contains "ingest",
+        toggleIgnored := Fts.Defects.asImplemented.toggleIgnored && !fixed.contains "toggle" }
     match nat? rest "id", kv? rest "eng" with
-    | some i, some "ev" => (some (.ev { nsites := n, st := init Defects.asImplemented n }), s!"case {i}")
-    | some i, some "fts" => (some (.fts (Fts.init Fts.Defects.asImplemented n)), s!"case {i}")
+    | some i, some "ev" => (some (.ev { nsites := n, st := init dEv n }), s!"case {i}")
+    | some i, some "fts" => (some (.fts (Fts.init dFts n)), s!"case {i}")
     | _, _ => (none, "bad-op")
   | _ =>
     match ds with
